@@ -299,15 +299,41 @@ func opDeliver(w *World, s *Step) (string, string) {
 		if err != nil {
 			return "keyerr", "keyerr"
 		}
-		c.sa.Log = &spyLog{}
+		c.sa.Log.Store(&spyLog{})
+	}
+	var before []byte
+	if w.prop == "C18" {
+		before = clone(c.buf[:cap(c.buf)])
 	}
 	c.msg, c.res = unprotect(c.buf, c.key, c.toRole, rx.PreHdr)
 	if c.sa != nil {
-		c.res.Spy = c.sa.Log
+		c.res.Spy = c.sa.Log.Load()
 	}
 	w.stats.inc("deliver_" + c.res.class())
+	if w.prop == "C18" && !bytes.Equal(before, c.buf[:cap(c.buf)]) {
+		w.violate("input_slice_written", "DecodeDecrypt", "DecodeDecrypt wrote into its input slice (or the spare capacity behind it): a concurrent decoder sharing that slice read-only would see the change")
+	}
 	if h := deliverHooks[w.prop]; h != nil {
 		h(c)
+	}
+	if rx.Redeliver && c.sa != nil {
+		// second presentation of the SAME buffer to a decoder with its own key object
+		first := c.res.class()
+		w.stats.inc("fault_same_buffer_presented_twice")
+		c.wire = clone(c.buf)
+		if k2, err := w.keyFor(c.sa, c.toRole, "twin", w.prop == "C02"); err == nil {
+			c.key = k2
+			c.sa.Log.Store(&spyLog{})
+			c.msg, c.res = unprotect(c.buf, c.key, c.toRole, rx.PreHdr)
+			c.res.Spy = c.sa.Log.Load()
+			w.stats.inc("deliver_" + c.res.class())
+			if h := deliverHooks[w.prop]; h != nil {
+				h(c)
+			}
+			if first != c.res.class() {
+				w.stats.inc("probe_second_presentation_differs")
+			}
+		}
 	}
 	if w.pendingExpand != nil {
 		return c.res.class(), "" // sub-step of a sweep: the sweep summarises
